@@ -123,6 +123,56 @@ func RichFeedMin(t *sim.T, minVehicles int) *gtfsrt.FeedMessage {
 		}
 		msg.Entity = append(msg.Entity, &gtfsrt.FeedEntity{Id: ps("bus:1"), Alert: a})
 	}
+	// twins: an entity repeated with a descriptor that differs from the original only in the presence of
+	// one field whose written value is the zero value (absent start_time vs "00:00:00", absent direction
+	// vs 0, ...): distinct identifiers that careless comparisons treat as equal
+	if t.Chance(1, 3) {
+		var tus []*gtfsrt.FeedEntity
+		for _, e := range msg.Entity {
+			if e.TripUpdate != nil && e.TripUpdate.Trip != nil {
+				tus = append(tus, e)
+			}
+		}
+		for n := t.Range(1, 2); n > 0 && len(tus) > 0; n-- {
+			src := tus[t.Choose(len(tus))]
+			twin := proto.Clone(src).(*gtfsrt.FeedEntity)
+			twin.Id = ps(src.GetId() + "-twin")
+			a, b := src.TripUpdate.Trip, twin.TripUpdate.Trip
+			proto.ClearExtension(a, gtfsrt.E_NyctTripDescriptor)
+			proto.ClearExtension(b, gtfsrt.E_NyctTripDescriptor)
+			switch t.Choose(5) {
+			case 0:
+				a.StartTime, b.StartTime = nil, ps("00:00:00")
+			case 1:
+				a.StartDate, b.StartDate = nil, ps("00010101")
+			case 2:
+				a.DirectionId, b.DirectionId = nil, pu32(0)
+			case 3:
+				a.RouteId, b.RouteId = nil, ps("")
+			case 4:
+				sr := gtfsrt.TripDescriptor_SCHEDULED
+				a.ScheduleRelationship, b.ScheduleRelationship = nil, &sr
+			}
+			msg.Entity = append(msg.Entity, twin)
+			t.Probe("twin-trip-descriptors")
+		}
+	}
+	// an alert whose route-only trip descriptors repeat a route, with and without a direction
+	if t.Chance(1, 3) {
+		a := &gtfsrt.Alert{HeaderText: tr1("Route detour, several selectors")}
+		routes := []string{"B41", "Q10", "M15"}
+		for n := t.Range(2, 5); n > 0; n-- {
+			td := &gtfsrt.TripDescriptor{RouteId: ps(routes[t.Choose(len(routes))])}
+			switch t.Choose(3) {
+			case 1:
+				td.DirectionId = pu32(0)
+			case 2:
+				td.DirectionId = pu32(1)
+			}
+			a.InformedEntity = append(a.InformedEntity, &gtfsrt.EntitySelector{Trip: td})
+		}
+		msg.Entity = append(msg.Entity, &gtfsrt.FeedEntity{Id: ps("bus:2"), Alert: a})
+	}
 	if t.Chance(1, 2) {
 		for i := len(msg.Entity) - 1; i > 0; i-- {
 			j := t.Choose(i + 1)
